@@ -26,7 +26,7 @@ Failed(r) ==
      \o t(P07(def, o, top), "C07")
      \o t(P09(def, o, top, mobs), "C09")
      \o (IF P10(def, o, top, mobs, r.sugg) THEN <<>>
-         ELSE IF mobs.outcome = "Err" /\ o.kind = "ArgumentConflict" /\ KF_PhantomGroup(def, top) THEN <<"C10#KF-C10-1">> ELSE <<"C10">>)
+         ELSE <<"C10">>)
      \o t(ObsEq(o, mobs) /\ (o.outcome = "Err" /\ ~top.panic => r.sugg.try = ExpectedTry(def, top, o.kind)), "model")
 
 Init == l = 1
